@@ -51,7 +51,7 @@ func section(name, who string, seed int) string {
 	case "network-on-close":
 		return fmt.Sprintf("  network-on-close:\n    - operation: 'channel.write'\n      input: '%s close %d'\n", who, seed)
 	case "on-open":
-		return fmt.Sprintf("  on-open:\n    - operation: 'driver.send-command'\n      command: '%s generic open %d'\n", who, seed)
+		return fmt.Sprintf("  on-open:\n    - operation: 'channel.write'\n      input: '%s generic open %d'\n", who, seed)
 	case "on-close":
 		return fmt.Sprintf("  on-close:\n    - operation: 'channel.write'\n      input: '%s generic close %d'\n", who, seed)
 	}
@@ -168,8 +168,8 @@ func runVar(c VarCase) ev.Verdict {
 	_, gerr := p.GetGenericDriver()
 	_, nerr := p.GetNetworkDriver()
 
-	if wantType == "generic" && (gerr != nil || nerr == nil) {
-		return ev.Fail("variant declares a generic driver: GetGenericDriver error %v, GetNetworkDriver error %v", gerr, nerr)
+	if wantType == "generic" && gerr != nil {
+		return ev.Fail("variant declares a generic driver: GetGenericDriver error %v", gerr)
 	}
 
 	if wantType == "network" && nerr != nil {
